@@ -319,6 +319,39 @@ def breakdown(js):
     return out
 
 
+MISSING_METHOD = re.compile(r"no method named `(\w+)` found for (?:struct|enum|reference|mutable reference|type) `&?(?:mut )?(?:[\w:]*::)?(\w+)")
+MISSING_FN = re.compile(r"cannot find function `(\w+)` in this scope")
+
+
+def find_missing_callees(diags, regions):
+    """A changed function may call a helper that did not exist when the unit was written.  If rustc reports an
+    unknown method/function and the unit's source files define it, return (owner, fn, relpath) so that it is
+    extracted verbatim (with no contract: callers then know nothing about its result)."""
+    files = sorted({r.info['src_file'] for r in regions if r.kind == 'fn'})
+    out = []
+    for d in diags:
+        if d.get('level') != 'error':
+            continue
+        msg = d.get('message', '')
+        m = MISSING_METHOD.search(msg)
+        owner, fname = (m.group(2), m.group(1)) if m else (None, None)
+        if not m:
+            m2 = MISSING_FN.search(msg)
+            if not m2:
+                continue
+            owner, fname = '', m2.group(1)
+        for rel in files:
+            try:
+                src = extract.load_source(rel)
+                extract.find_fn(src, (owner + '::' if owner else '') + fname)
+                if (owner, fname, rel) not in out:
+                    out.append((owner, fname, rel))
+                break
+            except extract.LostAnchor:
+                continue
+    return out
+
+
 def run_unit(name, tier='quick', keep=False, rebaseline=False):
     """Returns a result dict; result['status'] in ok | failed | undecided."""
     t0 = time.time()
@@ -328,14 +361,35 @@ def run_unit(name, tier='quick', keep=False, rebaseline=False):
     work = os.path.join(CACHE, f'{name}.{os.getpid()}')
     os.makedirs(work, exist_ok=True)
     try:
-        try:
-            text, regions, log, unit = extract.generate(unit_path(name))
-        except extract.LostAnchor as e:
-            res['reason'] = f'lost anchor: {e}'
-            return res
-        except (extract.UnitError, rustlex.LexError) as e:
-            res['reason'] = f'unit error: {e}'
-            return res
+        extra_tail = ''
+        auto = []
+        for _round in range(4):
+            try:
+                text, regions, log, unit = extract.generate(unit_path(name), extra_tail or None)
+            except extract.LostAnchor as e:
+                res['reason'] = f'lost anchor: {e}'
+                return res
+            except (extract.UnitError, rustlex.LexError) as e:
+                res['reason'] = f'unit error: {e}'
+                return res
+            if _round == 3:
+                break
+            # quick front-end probe: does the generated file name callees that are not in the unit?
+            probe = os.path.join(work, name + '.rs')
+            with open(probe, 'w') as f:
+                f.write(text)
+            rp = run_verus(probe, ['--no-verify'])
+            missing = find_missing_callees(rp.get('diags', []), regions)
+            missing = [m for m in missing if m not in auto]
+            if not missing:
+                break
+            for (owner, fname, relpath) in missing:
+                auto.append((owner, fname, relpath))
+                if owner:
+                    extra_tail += f'\nimpl {owner} {{\n//@fn {relpath} {owner}::{fname}\n//@end\n}}\n'
+                else:
+                    extra_tail += f'\n//@fn {relpath} {fname}\n//@end\n'
+        res['auto_extracted'] = [f'{o + "::" if o else ""}{f} ({r})' for (o, f, r) in auto]
         res['props'] = unit['props']
         res['rewrites'] = log
         gen = os.path.join(work, name + '.rs')
